@@ -35,6 +35,14 @@ pub enum Op {
     StartRun(u16),
     /// end a served connection: the client closes it (false) or the run future is dropped (true)
     FinishRun(u16, bool),
+    /// like StartRun, but the client has sent a request and part of its body: the connection is
+    /// parked *inside the handler* (which is reading) and stays there across a shutdown
+    StartRunInHandler(u16),
+    /// Runner::shutdown on runner r (its queued requests are cancelled first); connections of
+    /// that runner which are idle stop, one that is inside its handler keeps its slot
+    Shutdown(u16),
+    /// a runner with a different limit is overwritten by `clone_from(&runner r)` and joins the family
+    CloneFrom(u16),
     CloneRunner(u16),
 }
 
@@ -48,6 +56,7 @@ struct Pending {
     fut: Pin<Box<dyn Future<Output = Token>>>,
     flag: Arc<FlagWaker>,
     polled: bool,
+    runner: usize,
 }
 
 fn live_check(live: usize, limit: usize, what: &str) -> Result<(), Fail> {
@@ -58,7 +67,9 @@ fn live_check(live: usize, limit: usize, what: &str) -> Result<(), Fail> {
 fn test(c: &Case) -> TestResult {
     let limit = (c.limit as usize).clamp(1, 4);
     let cfg = syncdrv::config(64, limit);
-    let mut runners: Vec<Arc<Runner>> = vec![Arc::new(cfg.async_runner())];
+    let mut runners: Vec<Option<Arc<Runner>>> = vec![Some(Arc::new(cfg.async_runner()))];
+    let mut shutdowns: Vec<Pin<Box<dyn Future<Output = ()>>>> = Vec::new();
+    let mut used_shutdown = false;
     let mut pending: Vec<Pending> = Vec::new();
     let mut tokens: Vec<Token> = Vec::new();
     // connections being served: (task, its transport)
@@ -82,9 +93,9 @@ fn test(c: &Case) -> TestResult {
         let what = format!("op {oi} {op:?}");
         match op {
             Op::Get(r) => {
-                if pending.len() < 8 {
-                    let runner = runners[idx(*r, runners.len())].clone();
-                    pending.push(Pending { fut: Box::pin(async move { runner.get_token().await }), flag: FlagWaker::new(false), polled: false });
+                let ri = idx(*r, runners.len());
+                if let (true, Some(runner)) = (pending.len() < 8, runners[ri].clone()) {
+                    pending.push(Pending { fut: Box::pin(async move { runner.get_token().await }), flag: FlagWaker::new(false), polled: false, runner: ri });
                 }
             },
             Op::Poll(f) => {
@@ -160,8 +171,12 @@ fn test(c: &Case) -> TestResult {
                     let sh = Arc::new(HShared { scripts: vec![], propagate: true, log: Mutex::new(Vec::new()), step: Arc::new(AtomicUsize::new(0)), world: world.clone() });
                     let mut task = Task::new(tok.run(MockReader(world.clone()), MockWriter(world.clone()), make_handler(sh)));
                     let (end, _) = run_single(&mut task, 1000, |_| {});
-                    vensure!(end == RunEnd::Idle, "harness-inconsistent", "{what}: a connection with a silent client should be waiting, is {end:?}");
-                    serving.push((task, world));
+                    if end == RunEnd::Finished && used_shutdown {
+                        // token of a runner that was shut down meanwhile
+                    } else {
+                        vensure!(end == RunEnd::Idle, "harness-inconsistent", "{what}: a connection with a silent client should be waiting, is {end:?}");
+                        serving.push((task, world));
+                    }
                 }
             },
             Op::FinishRun(i, cancel) => {
@@ -182,12 +197,76 @@ fn test(c: &Case) -> TestResult {
                 }
             },
             Op::CloneRunner(r) => {
-                if runners.len() < 3 {
-                    let src = &runners[idx(*r, runners.len())];
-                    runners.push(Arc::new(Runner::clone(src)));
+                if let (true, Some(src)) = (runners.len() < 4, runners[idx(*r, runners.len())].clone()) {
+                    runners.push(Some(Arc::new(Runner::clone(&src))));
                     used_clone = true;
                 }
             },
+            Op::CloneFrom(r) => {
+                if let (true, Some(src)) = (runners.len() < 4, runners[idx(*r, runners.len())].clone()) {
+                    let mut other = syncdrv::config(64, limit + 2).async_runner();
+                    other.clone_from(&src);
+                    runners.push(Some(Arc::new(other)));
+                    used_clone = true;
+                }
+            },
+            Op::StartRunInHandler(t) => {
+                if !tokens.is_empty() {
+                    let k = idx(*t, tokens.len());
+                    let tok = tokens.remove(k);
+                    // a request whose body never ends: the handler blocks in its read
+                    let client = crate::wire::encode_all(&[
+                        crate::wire::Rec::new(crate::wire::T_BEGIN, 1, crate::wire::begin_body(1, 1), 0),
+                        crate::wire::Rec::new(crate::wire::T_PARAMS, 1, vec![], 0),
+                        crate::wire::Rec::new(crate::wire::T_STDIN, 1, vec![7, 7, 7], 0),
+                    ]);
+                    let n = client.len();
+                    let world: Shared = Arc::new(Mutex::new(World::new(client, vec![(n, Cond::Now)], vec![], vec![], false, IoFault::None)));
+                    world.lock().unwrap().close_at_end = false;
+                    let sh = Arc::new(HShared { scripts: vec![vec![HOp::ReadToEnd { cap: 8 }]], propagate: true, log: Mutex::new(Vec::new()), step: Arc::new(AtomicUsize::new(0)), world: world.clone() });
+                    let mut task = Task::new(tok.run(MockReader(world.clone()), MockWriter(world.clone()), make_handler(sh.clone())));
+                    let (end, _) = run_single(&mut task, 1000, |_| {});
+                    if end == RunEnd::Finished && used_shutdown {
+                        // the token came from a runner that has been shut down since: run() returns at once
+                    } else {
+                        vensure!(end == RunEnd::Idle && sh.log.lock().unwrap().len() == 1, "harness-inconsistent", "{what}: the connection should be parked inside its handler ({end:?})");
+                        serving.push((task, world));
+                    }
+                }
+            },
+            Op::Shutdown(r) => {
+                let ri = idx(*r, runners.len());
+                if runners.iter().filter(|x| x.is_some()).count() >= 2 {
+                    if let Some(arc) = runners[ri].take() {
+                        // queued requests on this runner are abandoned with it
+                        pending.retain(|p| p.runner != ri);
+                        match Arc::try_unwrap(arc) {
+                            Ok(runner) => {
+                                let mut f: Pin<Box<dyn Future<Output = ()>>> = Box::pin(runner.shutdown());
+                                let flag = FlagWaker::new(false);
+                                let waker = Waker::from(flag);
+                                let mut cx = Context::from_waker(&waker);
+                                let _ = f.as_mut().poll(&mut cx);
+                                shutdowns.push(f);
+                                used_shutdown = true;
+                            },
+                            Err(arc) => runners[ri] = Some(arc),
+                        }
+                    }
+                }
+            },
+        }
+        // connection tasks that were woken (shutdown, client close) run on; finished ones free their slot
+        let mut k = 0;
+        while k < serving.len() {
+            if serving[k].0.flag.is_woken() {
+                let (end, _) = run_single(&mut serving[k].0, 1000, |_| {});
+                if end == RunEnd::Finished {
+                    serving.remove(k);
+                    continue;
+                }
+            }
+            k += 1;
         }
         check(&pending, tokens.len() + serving.len(), &what)?;
     }
@@ -234,7 +313,8 @@ fn test(c: &Case) -> TestResult {
         .label_if(used_clone, "cloned-runner")
         .label_if(c.ops.iter().any(|o| matches!(o, Op::DropTokenInPanic(_))), "drop-during-unwind")
         .label_if(c.ops.iter().any(|o| matches!(o, Op::RunToCompletion(_))), "run-to-completion")
-        .label_if(c.ops.iter().any(|o| matches!(o, Op::StartRun(_))), "connection-being-served"))
+        .label_if(c.ops.iter().any(|o| matches!(o, Op::StartRun(_) | Op::StartRunInHandler(_))), "connection-being-served")
+        .label_if(used_shutdown, "runner-shut-down-mid-history"))
 }
 
 // ---------------------------------------------------------------------------------------------
@@ -339,6 +419,9 @@ fn op() -> BoxedStrategy<Op> {
         2 => any::<u16>().prop_map(Op::StartRun),
         2 => (any::<u16>(), any::<bool>()).prop_map(|(i, c)| Op::FinishRun(i, c)),
         1 => any::<u16>().prop_map(Op::CloneRunner),
+        1 => any::<u16>().prop_map(Op::StartRunInHandler),
+        1 => any::<u16>().prop_map(Op::Shutdown),
+        1 => any::<u16>().prop_map(Op::CloneFrom),
     ]
     .boxed()
 }
@@ -374,9 +457,9 @@ pub fn property() -> Property {
         subs: vec![
             prop_sub(
                 "histories",
-                "limits 1..4, 1..3 runners (clones share the limit), histories of get_token / poll / drop-pending-request / drop-token / drop-token-while-unwinding / run-to-completion / start-serving / finish-serving (client closes or future dropped) / clone operations; a token counts as live while it is held or while its connection is being served; after every operation: live tokens <= limit, a first poll with a free slot and nobody queued completes immediately, free slot and queued requests implies one of them has been woken; final drain: every request obtains a token as slots are freed; non-trivial = some request had to wait and more tokens than the limit were handed out over time; distinct = hash of the case",
-                60_000,
-                2_000_000,
+                "limits 1..4, 1..3 runners (clones share the limit), histories of get_token / poll / drop-pending-request / drop-token / drop-token-while-unwinding / run-to-completion / start-serving (idle or parked inside a handler) / finish-serving (client closes or future dropped) / clone / clone_from / shutdown-of-one-runner operations; a token counts as live while it is held or while its connection is being served; after every operation: live tokens <= limit, a first poll with a free slot and nobody queued completes immediately, free slot and queued requests implies one of them has been woken; final drain: every request obtains a token as slots are freed; non-trivial = some request had to wait and more tokens than the limit were handed out over time; distinct = hash of the case",
+                500_000,
+                10_000_000,
                 |_| boxed((1u8..=4, proptest::collection::vec(op(), 1..40)).prop_map(|(limit, ops)| Case { limit, ops })),
                 test,
             ),
